@@ -93,6 +93,13 @@ impl Property for C01 {
         for k in 0..n_ann {
             let a = (k * 2) % n;
             let ih = ihs[k % n_ih];
+            // an application that first looks (no announce) and moments later announces the same
+            // info-hash on the same node, while the first search is still running
+            if !long && rng.chance(1, 4) {
+                let lead = *rng.pick(&[0u64, 1, 300, 1_400, 2_000]);
+                sc.at(t.saturating_sub(lead).max(t_ready), Op::Search { node: a, ih, announce: false });
+                sc.params.insert("look_then_announce".into(), 1);
+            }
             let s = sc.at(t, Op::Search { node: a, ih, announce: true });
             ann_steps.push((s, a));
             t += *rng.pick(&[0u64, 300, 5_000]);
@@ -318,6 +325,9 @@ impl Property for C01 {
         if n == 2 {
             v.hit("two_node_network");
         }
+        if sc.param("look_then_announce") != 0 {
+            v.hit("same_node_searches_then_announces_same_hash");
+        }
         if n == 9 {
             v.hit("nine_node_network");
         }
@@ -335,12 +345,12 @@ impl Property for C01 {
         v
     }
     fn rule(&self) -> &'static str {
-        "2..9 real serving nodes (IPv4 or IPv6, random or clustered ids, announce port set or not) that all know each other (full mesh, or a star at low latency; verified through load_contacts before the workload, else the run is not judged), loss-free with per-datagram latency uniform in [0, L], L in {0,5,50,300,700,1000} ms; the workload starts 20 s, 31..45 min or 1..3 h after start-up; 1..3 announcing searches for 1..2 info-hashes, then 1..4 searches from other nodes at an offset of 1 s .. 2 h (runs 32..43 quick / 32..191 thorough are day-long histories: offsets 12 h, 24 h -+ 1 min / 1 h, 1..2 info-hashes announced, one of them re-announced after 1 h / half-way / 23 h, searches on both sides of the 24 hours of the first announce and of the re-announce, a searcher after 36 h). Model: per (info-hash, contact) the acknowledged announce times per storing node. non-trivial = at least one (search, announced contact of another node) pair judged; distinct = distinct order digests"
+        "2..9 real serving nodes (IPv4 or IPv6, random or clustered ids, announce port set or not) that all know each other (full mesh, or a star at low latency; verified through load_contacts before the workload, else the run is not judged), loss-free with per-datagram latency uniform in [0, L], L in {0,5,50,300,700,1000} ms; the workload starts 20 s, 31..45 min or 1..3 h after start-up; 1..3 announcing searches for 1..2 info-hashes (1 in 4 preceded, 0..2 s earlier, by a non-announcing search for the same hash on the same node), then 1..4 searches from other nodes at an offset of 1 s .. 2 h (runs 32..43 quick / 32..191 thorough are day-long histories: offsets 12 h, 24 h -+ 1 min / 1 h, 1..2 info-hashes announced, one of them re-announced after 1 h / half-way / 23 h, searches on both sides of the 24 hours of the first announce and of the re-announce, a searcher after 36 h). Model: per (info-hash, contact) the acknowledged announce times per storing node. non-trivial = at least one (search, announced contact of another node) pair judged; distinct = distinct order digests"
     }
     fn assumptions(&self) -> Vec<&'static str> {
         vec!["must-find is applied only for L <= 700 ms (RTT below the 1.5 s query lifetime) and searches starting >= 1 s after the announce was stored; L = 1000 ms runs are judged for fabrication and expiry only", "10 s margin around the 24 h edge (the exact edge is C07's)"]
     }
     fn required_reach(&self) -> Vec<&'static str> {
-        vec!["must_find", "must_find_after_announcing_search_ended", "announce_after_idle_half_hour", "must_not_find", "found_after_12h", "two_node_network", "nine_node_network", "star_topology", "explicit_announce_port", "ipv6"]
+        vec!["must_find", "must_find_after_announcing_search_ended", "announce_after_idle_half_hour", "must_not_find", "found_after_12h", "two_node_network", "same_node_searches_then_announces_same_hash", "nine_node_network", "star_topology", "explicit_announce_port", "ipv6"]
     }
 }
